@@ -168,7 +168,7 @@ def spec_shape(fns, nd):
 # ------------------------------------------------------------------------------------------------
 # running one case
 # ------------------------------------------------------------------------------------------------
-def call_dag(d, op, args):
+def call_dag(d, op, args, executor=None):
     """Perform one client operation (sync or async flavour) and return the raw value."""
     from tawazi import AsyncDAG
 
@@ -187,7 +187,7 @@ def call_dag(d, op, args):
         for k in ("target_nodes", "exclude_nodes", "root_nodes"):
             if op.get(k) is not None:
                 kw[k] = op[k]
-        ex = d.executor(**S.spell_selections(kw))
+        ex = executor if executor is not None else d.executor(**S.spell_selections(kw))
         if is_async:
             return asyncio.run(_acall(ex, args))
         return ex(*args)
@@ -202,7 +202,7 @@ def setup_sites(spec):
     return {i for i, nd in enumerate(spec["nodes"]) if spec["fns"][nd["fn"]].get("setup")}
 
 
-def run_case(spec, op=None, args=None, faults=(), controlled=True, chooser=None, d=None, plain=None, pre_values=None, fault_base=False):
+def run_case(spec, op=None, args=None, faults=(), controlled=True, chooser=None, d=None, plain=None, pre_values=None, fault_base=False, executor=None):
     """Build (unless given), run the reference, run tawazi under the monitors, return a case record."""
     op = op or {"kind": "call"}
     from .sym import Sym
@@ -235,7 +235,7 @@ def run_case(spec, op=None, args=None, faults=(), controlled=True, chooser=None,
     if spec.get("run_debug"):
         _tcfg.RUN_DEBUG_NODES = True  # the shape has debug sinks: the whole case runs with them switched on
     try:
-        res = probes.run_op(op.get("kind", "call"), lambda: call_dag(d, op, args))
+        res = probes.run_op(op.get("kind", "call"), lambda: call_dag(d, op, args, executor))
     finally:
         _tcfg.RUN_DEBUG_NODES = old_dbg
         B.Settings.controlled = False
